@@ -158,6 +158,7 @@ pub fn run(rep: &mut Report) {
         evals += 1;
         let mut r = Rng::new(sub, "c03-case", 0);
         let r = &mut r;
+        let ok_before = ok_calls();
         match scenario {
             0 => {
                 let s = if r.bool() {
@@ -386,8 +387,12 @@ pub fn run(rep: &mut Report) {
                 rep.hit("storm/options");
             }
         }
+        // non-trivial storm case: at least three calls of it returned a value (it got past argument validation)
+        if ok_calls() - ok_before >= 3 {
+            rep.nontrivial(crate::fp!(scenario, sub));
+        }
         if evals % 50_021 == 1 {
-            rep.sample(&format!("e{evals}"), || json!({"scenario": scenario}));
+            rep.sample(&format!("e{evals}"), || json!({"scenario": scenario, "case_seed": sub, "calls_that_returned_a_value": ok_calls() - ok_before}));
         }
     }
     rep.evaluations += evals;
